@@ -123,11 +123,12 @@ func (fc *ProtoForkChoice) updateJustified(finalized Checkpoint, justified Check
 		}
 	}
 	if fc.justified != justified {
-		if unknown, inSubtree := fc.protoArray.InSubtree(fc.finalized.Root, justified.Root); unknown {
+		// the justified checkpoint has to be in the subtree of the finalized checkpoint it comes with
+		if unknown, inSubtree := fc.protoArray.InSubtree(finalized.Root, justified.Root); unknown {
 			return fmt.Errorf("unknown justified checkpoint: %s", justified)
 		} else if !inSubtree || fc.finalized.Epoch > justified.Epoch {
 			return fmt.Errorf("new justified checkpoint %s is outside of finalized subtree: %s",
-				justified, fc.finalized)
+				justified, finalized)
 		}
 	}
 
